@@ -254,6 +254,72 @@ func TestC10Single(t *testing.T) {
 	}, checkC10)
 }
 
+// TestC10Paths: "on every path, success or failure": the ways a run ends without any injected fault.
+func TestC10Paths(t *testing.T) {
+	rec := NewRecorder("C10", "C10Paths", "enumeration of fault-free end states: every variant x {success, silence, context cancelled before / during the run} and for SACK additionally {port closed (real ECONNREFUSED), handshake never shown, SYN-ACK without SACK-permitted, truncated timestamp option, acknowledgement without SACK blocks in three encodings} x 2 TTL ranges; oracle: result xor error, every handle the run opened closed exactly once, nothing used after Close or after return, no goroutine or descriptor left; non-trivial = the run ended in an error; exhaustive over that product")
+	rec.Exhaustive = true
+	type pathCase struct {
+		Sc   *Scenario `json:"scenario"`
+		Path string    `json:"path"`
+	}
+	RunCases(t, rec, func(yield func(*pathCase) bool) {
+		for _, v := range AllVariants {
+			for _, r := range [][2]int{{1, 3}, {2, 6}} {
+				paths := []string{"success", "silence", "cancel-before", "cancel-during"}
+				if v == "sack" {
+					paths = append(paths, "closed", "no-synack", "no-permit", "trunc-ts", "plain-ack", "plain-ack-empty", "plain-ack-ts")
+				}
+				for _, path := range paths {
+					sc := c10Base(v, r[0], r[1])
+					switch path {
+					case "silence":
+						sc.Script = FlowScript{DestDist: 0, Default: HopSpec{Silent: true}}
+					case "cancel-before":
+						sc.CancelAtUs = -1
+					case "cancel-during":
+						sc.CancelAtUs = 3000
+					case "closed":
+						sc.Sack.NoListen = true
+					case "no-synack":
+						sc.Sack.NoSynAck = true
+					case "no-permit":
+						sc.Sack.Permit = false
+					case "trunc-ts":
+						sc.Sack.TruncTS = true
+					case "plain-ack", "plain-ack-empty", "plain-ack-ts":
+						sc.Script = FlowScript{DestDist: r[1], Default: HopSpec{DelayUs: 4000, DestKind: path}}
+					}
+					if !yield(&pathCase{Sc: sc, Path: path}) {
+						return
+					}
+				}
+			}
+		}
+	}, func(t *testing.T, c *pathCase, rec *Recorder) []Diff {
+		o := RunScenario(t, c.Sc)
+		var ds []Diff
+		add := func(sig, f string, a ...any) { ds = append(ds, Diff{"C10", sig, fmt.Sprintf(f, a...)}) }
+		rec.CaseEnumerated(o.Err != nil, map[string]any{"variant": c.Sc.Variant, "path": c.Path, "err": fmt.Sprint(o.Err)}, "variant:"+c.Sc.Variant, "path:"+c.Path)
+		if o.Panic != "" || o.Deadlock != "" || o.Wire == nil {
+			add("crash", "path %s crashed or wedged the run: %s%s", c.Path, o.Panic, o.Deadlock)
+			return ds
+		}
+		if (o.Err == nil) == (o.Run == nil) {
+			add("result-xor-error", "path %s: result %v, error %v", c.Path, o.Run != nil, o.Err)
+		}
+		for _, p := range o.Wire.HandleProblems() {
+			add("handle", "path %s: %s", c.Path, p)
+		}
+		if o.GorAfter > o.GorBefore {
+			add("goroutine-leak", "path %s: %d goroutines before the call, %d after it returned", c.Path, o.GorBefore, o.GorAfter)
+		}
+		if o.FdBefore >= 0 && o.FdAfter > o.FdBefore {
+			add("fd-leak", "path %s: %d file descriptors before, %d after; open now: %s", c.Path, o.FdBefore, o.FdAfter, o.FdList)
+		}
+		return ds
+	})
+}
+
 func TestC10Multi(t *testing.T) {
 	rec := NewRecorder("C10", "C10Multi", "rapid: generated scenarios (all variants, worlds with loss/duplicates) with 1..3 simultaneous faults at drawn call indices and classes; same oracle")
 	RunProp(t, rec, func(rt *rapid.T) *c10Case {
